@@ -316,8 +316,10 @@ class Interp:
                     return Sym('S', f'(norm O {v.e})')
             self.err(node, 'unsupported np.linalg.norm call')
         if self.is_attr_chain(f, ['np', 'zeros']):
-            if len(node.args) == 2 and not node.keywords and \
+            if len(node.args) in (1, 2) and not node.keywords and \
                     isinstance(self.ev(node.args[0], env), Count):
+                if len(node.args) == 1 or self.is_attr_chain(node.args[1], ['np', 'float64']):
+                    return Sym('S', '(zero O)')          # float64 accumulator
                 if self.is_attr_chain(node.args[1], ['np', 'float32']):
                     self.notes.add('float32 accumulator (np.zeros(n, np.float32)) modelled as exact')
                     return Sym('S', '(zero O)')
@@ -777,6 +779,21 @@ def translate(repo):
         if name not in methods:
             raise TranslateError(f'hand-modelled method {name} not found')
         consumed['geometry_processor.py:' + name + ' (hand model)'] = region_sha(src, methods[name])
+    # the numba polyhedron cores: fans from the coordinate origin, or from the first
+    # node of the first face (`F = nodes[poly[L:L + k]] - origin`, origin = nodes[poly[2]])
+    shifted = []
+    for name in ('_calculate_element_volumes_polyhedron_core',
+                 '_calculate_element_volumes_polyhedron_centroid_core'):
+        txt = ast.unparse(methods[name])
+        plain = txt.count('F = nodes[poly[L:L + k]]\n') == 1 and 'origin' not in txt
+        local = txt.count('F = nodes[poly[L:L + k]] - origin\n') == 1 and \
+            txt.count('origin = nodes[poly[2]].astype(np.float64)') == 1 and \
+            txt.count('origin = np.zeros(3)') == 1
+        if plain == local:
+            raise TranslateError(f'{name}: neither the origin-based nor the local-origin form')
+        shifted.append(local)
+    if shifted[0] != shifted[1]:
+        raise TranslateError('polyhedron cores disagree about the local origin')
     # arg kind of hand kernels
     for entry in ('calculate_element_areas', 'calculate_element_volumes',
                   'calculate_element_normals'):
@@ -786,7 +803,8 @@ def translate(repo):
             want = 'faces' if 'polyhedron' in k[0] else 'elements'
             if k[1] != want:
                 raise TranslateError(f'{entry}{key}: kernel {k[0]} called with {k[1]}')
-    return {'kernels': kernels, 'dispatch': disp, 'types': types}, consumed
+    return {'kernels': kernels, 'dispatch': disp, 'types': types,
+            'polyhedron_local_origin': shifted[0]}, consumed
 
 
 # ---------------------------------------------------------------------- emit
@@ -801,6 +819,9 @@ def emit(model):
            'Import ListNotations.',
            'From FV.C11 Require Import Model.',
            'Open Scope string_scope.', '',
+           '(* the numba polyhedron cores subtract the first node of the first face before the fans *)',
+           'Definition polyhedron_local_origin : bool := '
+           + ('true' if model['polyhedron_local_origin'] else 'false') + '.', '',
            'Section Kernels.', 'Variable T : Type.', 'Variable O : Ops T.', '']
     kmap = {}
     for k in model['kernels']:
@@ -828,7 +849,8 @@ def emit(model):
             if hty != ty:
                 continue
             if 'polyhedron' in py:
-                out.append(f'  if String.eqb name {cs(py)} then Some ({hname} O faces) else')
+                out.append(f'  if String.eqb name {cs(py)} then Some ({hname} O '
+                           f'(shift_faces_if O polyhedron_local_origin faces)) else')
             elif hty == 'S':
                 out.append(f'  if String.eqb name {cs(py)} then {hname} O pts else')
             else:
